@@ -10,6 +10,7 @@ import time
 
 HERE = os.path.dirname(os.path.abspath(__file__))
 VERIF = os.path.dirname(HERE)
+OUT = os.environ.get("VERIF_OUT", VERIF)
 EXIT_OK, EXIT_VIOLATION, EXIT_HARNESS = 0, 1, 3
 
 LEVELS = {
@@ -64,7 +65,7 @@ class Check:
         self.harness_errors = []
         self.known = [k for k in load_known() if k.get("property") == pid]
         import shutil
-        shutil.rmtree(os.path.join(VERIF, "replays", pid), ignore_errors=True)
+        shutil.rmtree(os.path.join(OUT, "replays", pid), ignore_errors=True)
         self.nontrivial = set()
 
     # -- bookkeeping
@@ -102,7 +103,7 @@ class Check:
             return "dup"
         path = None
         if replay is not None:
-            d = os.path.join(VERIF, "replays", self.pid)
+            d = os.path.join(OUT, "replays", self.pid)
             os.makedirs(d, exist_ok=True)
             h = hashlib.sha1(key.encode()).hexdigest()[:12]
             path = os.path.join(d, f"{h}.json")
@@ -153,8 +154,8 @@ class Check:
             "wall_s": round(wall, 2),
             "violations": len(self.violations),
         }
-        os.makedirs(os.path.join(VERIF, "evidence"), exist_ok=True)
-        with open(os.path.join(VERIF, "evidence", f"{self.pid}.json"), "w") as fh:
+        os.makedirs(os.path.join(OUT, "evidence"), exist_ok=True)
+        with open(os.path.join(OUT, "evidence", f"{self.pid}.json"), "w") as fh:
             json.dump(ev, fh, indent=1)
         for key, what in self.known_hit:
             print(f"KNOWN-FINDING: property={self.pid} {what} [{key}]")
